@@ -150,3 +150,93 @@ theorem SinkCfgSame.closed (s0 : BSt) : Closed (SinkCfgSame s0) where
     exact ⟨a'.trans a, b'.trans b, c'.trans c, d'.trans d, e'.trans e⟩
 
 end Backend.PA
+
+namespace Backend.PA
+open Backend Spsc
+
+def isFthrow : Ev → Bool
+  | .fthrow _ => true
+  | _ => false
+
+def isFfail : Ev → Bool
+  | .notify m => m == "n:ffail"
+  | _ => false
+
+/-- every `flush_sink` fault is reported: as many `n:ffail` notifications as `fthrow` events, each right after its fault -/
+theorem flushFold_reported : ∀ (l : List Nat) (s : BSt),
+    ∃ evs, (l.foldl (fun s sid =>
+        let k := s.sinkOf sid
+        let k' := { k with fcalls := k.fcalls + 1 }
+        let s1 := s.setSink sid (fun _ => k')
+        if throwsAt k.fthrow k'.fcalls then (s1.emit (.fthrow sid)).emit (.notify "n:ffail")
+        else s1.emit (.flushed sid)) s).log = evs ++ s.log ∧
+      evs.countP isFthrow = evs.countP isFfail ∧
+      ∀ a b e, evs = a ++ e :: b → isFthrow e = true → ∃ a', a = a' ++ [Ev.notify "n:ffail"]
+  | [], s => ⟨[], rfl, rfl, fun a b e h => by simp at h⟩
+  | x :: xs, s => by
+    rw [List.foldl_cons]
+    dsimp only
+    split
+    · obtain ⟨evs, h1, h2, h3⟩ := flushFold_reported xs
+        (((s.setSink x (fun _ => { s.sinkOf x with fcalls := (s.sinkOf x).fcalls + 1 })).emit (.fthrow x)).emit (.notify "n:ffail"))
+      refine ⟨evs ++ [.notify "n:ffail", .fthrow x], ?_, ?_, ?_⟩
+      · rw [h1]; simp
+      · rw [List.countP_append, List.countP_append, h2]; rfl
+      · intro a b e he hf
+        rcases List.append_eq_append_iff.mp he with ⟨c, hc1, hc2⟩ | ⟨c, hc1, hc2⟩
+        · -- a = evs ++ c, [notify, fthrow] = c ++ e :: b
+          cases c with
+          | nil => simp at hc2; (first | rw [← hc2.1] at hf | rw [hc2.1] at hf); cases hf
+          | cons c0 cs =>
+            simp at hc2
+            obtain ⟨rfl, hcs⟩ := hc2
+            cases cs with
+            | nil => exact ⟨evs, by rw [hc1]⟩
+            | cons c1 cs' => simp at hcs
+        · -- evs = a ++ c, c ++ [notify, fthrow] = e :: b
+          cases c with
+          | nil => simp at hc2; (first | rw [← hc2.1] at hf | rw [hc2.1] at hf); cases hf
+          | cons c0 cs =>
+            simp at hc2
+            exact h3 a cs e (by rw [hc1, hc2.1]) hf
+    · obtain ⟨evs, h1, h2, h3⟩ := flushFold_reported xs
+        ((s.setSink x (fun _ => { s.sinkOf x with fcalls := (s.sinkOf x).fcalls + 1 })).emit (.flushed x))
+      refine ⟨evs ++ [.flushed x], ?_, ?_, ?_⟩
+      · rw [h1]; simp
+      · rw [List.countP_append, List.countP_append, h2]; rfl
+      · intro a b e he hf
+        rcases List.append_eq_append_iff.mp he with ⟨c, hc1, hc2⟩ | ⟨c, hc1, hc2⟩
+        · cases c with
+          | nil => simp at hc2; (first | rw [← hc2.1] at hf | rw [hc2.1] at hf); cases hf
+          | cons c0 cs => simp at hc2
+        · cases c with
+          | nil => simp at hc2; (first | rw [← hc2.1] at hf | rw [hc2.1] at hf); cases hf
+          | cons c0 cs =>
+            simp at hc2
+            exact h3 a cs e (by rw [hc1, hc2.1]) hf
+
+theorem flushSinks_reported (s : BSt) :
+    ∃ evs, (flushSinks s).log = evs ++ s.log ∧ evs.countP isFthrow = evs.countP isFfail ∧
+      ∀ a b e, evs = a ++ e :: b → isFthrow e = true → ∃ a', a = a' ++ [Ev.notify "n:ffail"] := by
+  unfold flushSinks
+  exact flushFold_reported (activeSinks s) s
+
+/-- a write fault on an ordinary statement is reported in the same processing step: the pop appends the events of the
+    dispatch (ending with the `wthrow`) and then exactly the notification `n:wfail` -/
+theorem popStep_wfault_reported (s : BSt) (i : Nat) (st : Stmt) (rest : List Stmt) (ho : isOrd st = true)
+    (hx : (dispatch s st).2 = true) :
+    (popStep s i st rest).log = Ev.notify "n:wfail" :: (dispatch s st).1.log := by
+  simp only [isOrd, Bool.and_eq_true, bne_iff_ne, ne_eq] at ho
+  have hk : st.kind = .log := by
+    cases hkk : st.kind <;> simp [hkk, isLogKind] at ho
+    rfl
+  have hpe : processEvent s st = ((dispatch s st).1, some "n:wfail", none) := by
+    unfold processEvent
+    rw [hk]
+    dsimp only
+    rw [if_pos ho.2, if_pos hx]
+  unfold popStep
+  rw [hpe]
+  rfl
+
+end Backend.PA
